@@ -946,6 +946,20 @@ func fileMatrix(out *bufio.Writer, r *rng, sch *crypto.Scheme, umasks []int) {
 			if err := st.Close(); err != nil {
 				return "err:Close:" + err.Error()
 			}
+			// operator paths on the same database (drand dkg nuke of ANOTHER beacon id, the v1->v2 migration of one): whatever
+			// file they leave behind holds this beacon's share too and is picked up by dumpFiles below
+			if st2, err := dkg.NewDKGStore(root); err == nil {
+				other := &dkg.DBState{BeaconID: "other", Epoch: 1, State: dkg.Complete, Threshold: 1, Timeout: time.Unix(1700000100, 0),
+					SchemeID: sch.Name, GenesisTime: time.Unix(1700000000, 0), GenesisSeed: []byte{1}, CatchupPeriod: time.Second, BeaconPeriod: time.Second,
+					Leader: me, Joining: []*pdkg.Participant{me}, Acceptors: []*pdkg.Participant{me}, FinalGroup: g, KeyShare: sh}
+				_ = st2.SaveFinished("other", other)
+				_ = st2.MigrateFromGroupfile("migrated", g, sh)
+				_ = st2.NukeState("other")
+				_ = st2.NukeState("no-such-beacon")
+				_ = st2.Close()
+			} else {
+				return "err:NewDKGStore(2):" + err.Error()
+			}
 			// pre-existing loose key file, then the secure save on top of it
 			loose := path.Join(root, common.MultiBeaconFolder, "default", "key", "drand_id.private")
 			_ = os.Chmod(loose, 0o666)
